@@ -35,8 +35,11 @@ def extract(spec, text):
     if len(spec.structs) != 1:
         raise NotANest("cascade")
     st = spec.structs[0]
-    if any(t["take"] is not None for t in st["terms"]):
-        raise NotANest("take")
+    sels = []
+    for t in st["terms"]:
+        if t["take"] is not None and any(f[0] != "T" for f in t["factors"]):
+            raise NotANest("take with a scalar operand")
+        sels.append(t["take"])
     for a in st["out_idx"]:
         if len(a) != 1 or a[0][0] != 1:
             raise NotANest("index math")
@@ -137,12 +140,12 @@ def extract(spec, text):
         leaf_stmt = ups[0]
     # scalar factors are rank-0 operands placed after the tensors of their term
     shape = [[iter_ranks[t] for t in ts] + [[] for _ in sc] for ts, sc in zip(term_tensors, term_scalars)]
-    acc, lv = _leaf_view(leaf_stmt, term_tensors, term_scalars, fiber)
+    acc, lv = _leaf_view(leaf_stmt, term_tensors, term_scalars, sels)
     out_ranks = [a[0][1].upper() for a in st["out_idx"]]
-    return L, shape, views, acc, lv, out_ranks
+    return L, shape, views, acc, lv, out_ranks, sels
 
 
-def _leaf_view(stmt, term_tensors, term_scalars, fiber):
+def _leaf_view(stmt, term_tensors, term_scalars, sels):
     """The update statement `<out>_ref += e` / `<out>_ref <<= e`, e = sum over the terms (in order) of products of
     `<tensor>_val` names and scalar names -> (accumulates?, per term the sorted operand positions multiplied)."""
     if not (isinstance(stmt, ast.AugAssign) and isinstance(stmt.target, ast.Name) and stmt.target.id.endswith("_ref")):
@@ -168,8 +171,11 @@ def _leaf_view(stmt, term_tensors, term_scalars, fiber):
     terms = summands(stmt.value)
     if len(terms) != len(term_tensors):
         raise NotANest("update expression has %d summands for %d terms" % (len(terms), len(term_tensors)))
-    lv = []
-    for e, ts, sc in zip(terms, term_tensors, term_scalars):
+    # the update lists the product terms first (in the order written), then the take terms
+    order = [i for i, s in enumerate(sels) if s is None] + [i for i, s in enumerate(sels) if s is not None]
+    lv = [None] * len(terms)
+    for e, ti in zip(terms, order):
+        ts, sc = term_tensors[ti], term_scalars[ti]
         # operand names of this term, by position: <tensor lower>_val for tensors, the scalar's own name for scalars
         names = [t.lower() + "_val" for t in ts] + list(sc)
         free = list(range(len(names)))
@@ -180,5 +186,5 @@ def _leaf_view(stmt, term_tensors, term_scalars, fiber):
                 raise NotANest("update multiplies %s which is not an unused operand of its term" % n)
             free.remove(hit[0])
             ps.append(hit[0])
-        lv.append(sorted(ps))
+        lv[ti] = sorted(ps)
     return acc, lv
